@@ -38,7 +38,7 @@ EXPLANATION = (
     'NOT decided: output level bounds and decay as measured audio, accuracy of FEC versus the lost frame, and '
     're-convergence after loss (numeric, signal dependent).')
 
-CONFIGS = {'quick': ['float'], 'thorough': ['float', 'fixed']}
+CONFIGS = {'quick': ['float', 'fixed'], 'thorough': ['float', 'fixed']}
 
 
 def setup(rep, tier):
@@ -51,6 +51,7 @@ def setup(rep, tier):
     rep.minimum('R09.7', 3)
     rep.minimum('R09.8', 1)
     rep.minimum('R09.9', 2)
+    rep.minimum('R09.10', 2)
 
 
 def T_minmax(e):
@@ -670,3 +671,13 @@ def check(rep, prog, tier):
     r09_3(rep, prog)
     r09_4(rep, prog)
     r09_5(rep, prog)
+
+
+def finish(rep, tier, progs):
+    # R09.10: the float and fixed-point twins of the LBRR (in-band FEC) encoder keep the same integer bookkeeping under the
+    # same branch conditions - which gain index the redundant frame is coded against decides how loud the recovered frame is
+    if 'float' in progs and 'fixed' in progs:
+        from . import flpfix
+        n = flpfix.check(rep, 'R09.10', progs['float'], progs['fixed'], only=lambda name: 'LBRR' in name)
+        if not n:
+            rep.unresolved('R09.10', 'no LBRR twin pair found')
